@@ -640,8 +640,10 @@ def build_for(E, spec, pid):
     env, contracts = install(E)
     for name in EVENTS:
         E.contracts[f"{SP}.{name}#event"] = contracts[name]
-    spec.targets = [(f"{SP}.{name}", None) for name in EVENTS]
-    spec.event_contracts = {f"{SP}.{name}": contracts[name] for name in EVENTS}
+    spec.targets = list(spec.targets) + [(f"{SP}.{name}", None) for name in EVENTS]      # extend: a module may have targets of its own already
+    if not hasattr(spec, "event_contracts") or spec.event_contracts is None:
+        spec.event_contracts = {}
+    spec.event_contracts.update({f"{SP}.{name}": contracts[name] for name in EVENTS})
     import re as _re
 
     def _req_tagged(obname):
@@ -669,3 +671,17 @@ def no_falsy_middleware(E):
             if isinstance(n, (_ast.FunctionDef, _ast.AsyncFunctionDef)) and n.name in ("__len__", "__bool__"):
                 bad.append(f"{cname}.{n.name}")
     return (not bad), ("no class of server/middleware.py defines __len__ or __bool__" if not bad else f"defined: {bad} - an empty/falsy middleware object is skipped by 'if self.middleware:' in GeminiServerProtocol")
+
+
+def as_sub(pid, only=None):
+    """a sub-specification (own engine): the server protocol's events, filtered to [INV] + the clauses tagged `pid`
+    (or, with `only`, to obligations whose name contains that text)"""
+    def build(E2):
+        from pyvc.runner import Spec
+        s2 = Spec(pid)
+        s2.targets = []
+        build_for(E2, s2, pid)
+        if only is not None:
+            s2.keep = lambda name: only in name
+        return s2
+    return build
